@@ -68,6 +68,9 @@ pub struct C19Plan {
     /// explicit output name for decompress (None = defaulted)
     pub decompress_out: Option<String>,
     pub archive_fault: ArchiveFault,
+    /// the path decompress is going to write already holds a longer file
+    #[serde(default)]
+    pub restore_target_exists: bool,
 }
 
 pub struct C19;
@@ -221,7 +224,7 @@ impl Engine for C19 {
             2 => *r.pick(&[ArchiveFault::Garbage, ArchiveFault::Empty]),
             _ => ArchiveFault::None,
         };
-        C19Plan { spelling: *r.pick(&[Spelling::Bare, Spelling::Bare, Spelling::DotSlash, Spelling::Absolute]), content, name, level, compress_out, pre, decompress_out: if r.chance(1, 2) { None } else { Some("restored.out".to_string()) }, archive_fault }
+        C19Plan { spelling: *r.pick(&[Spelling::Bare, Spelling::Bare, Spelling::DotSlash, Spelling::Absolute]), content, name, level, compress_out, pre, decompress_out: if r.chance(1, 2) { None } else { Some("restored.out".to_string()) }, archive_fault, restore_target_exists: r.chance(1, 5) }
     }
 
     fn exec(&self, plan: &C19Plan, stats: &mut Stats, log: Option<&mut Vec<Value>>) -> Result<RunOutcome, HarnessError> {
@@ -372,11 +375,16 @@ impl Engine for C19 {
                             if let Some(o) = &plan.decompress_out {
                                 dargs.push(o.clone());
                             }
+                            let stem = Path::new(&aname).file_stem().map(|s| s.to_string_lossy().to_string()).unwrap_or_default();
+                            let rname = plan.decompress_out.clone().unwrap_or(stem);
+                            let stale = plan.restore_target_exists && rname != aname && !rname.is_empty();
+                            if stale {
+                                std::fs::write(outdir.join(&rname), vec![b'#'; data.len() * 2 + 57]).map_err(|e| HarnessError(e.to_string()))?;
+                                stats.inc("probe.restore_target_existed_and_was_longer");
+                            }
                             let r = run_cli(&outdir, &dargs)?;
                             d.u64(r.code.map(|x| x as u64 + 1).unwrap_or(0));
                             d.u64(r.panicked as u64);
-                            let stem = Path::new(&aname).file_stem().map(|s| s.to_string_lossy().to_string()).unwrap_or_default();
-                            let rname = plan.decompress_out.clone().unwrap_or(stem);
                             let restored = std::fs::read(outdir.join(&rname)).ok();
                             lg.push(json!({"argv": dargs, "exit": r.code, "panicked": r.panicked, "stderr": r.stderr_tail, "archive_fault": fault_kind, "restored_len": restored.as_ref().map(|b| b.len())}));
                             if rname == aname {
@@ -389,6 +397,9 @@ impl Engine for C19 {
                                 } else if still.as_deref() != Some(&arch[..]) {
                                     v = Some(violation("C19/decompress_destroyed_its_input", format!("the archive {aname} was {} bytes and is now {:?} bytes; exit {:?}: {}", arch.len(), still.as_ref().map(|b| b.len()), r.code, r.stderr_tail)));
                                 }
+                            } else if fault_kind == "none" && stale && r.code != Some(0) {
+                                // refusing to overwrite an existing file is a failure reported through the exit status: allowed
+                                stats.inc("probe.refused_to_overwrite_restore_target");
                             } else if fault_kind == "none" {
                                 if r.code != Some(0) {
                                     v = Some(violation(format!("C19/decompress_failed:{lvl}"), format!("exit {:?}: {}", r.code, r.stderr_tail)));
